@@ -979,11 +979,11 @@ func (r *reader) pushToken(src []byte) {
 				newQuote = CLPkg.GetFunc("quote").Create
 			}
 			if len(r.stack) == 1 {
-				r.code = append(r.code, newQuote(List{Symbol(token)}))
+				r.code = append(r.code, newQuote(List{r.resolveToken(token)}))
 				r.stack[len(r.stack)-1] = nil
 				r.stack = r.stack[:0]
 			} else {
-				r.stack[len(r.stack)-1] = newQuote(List{Symbol(token)})
+				r.stack[len(r.stack)-1] = newQuote(List{r.resolveToken(token)})
 			}
 			return
 		case sharpQuoteMarker:
@@ -1003,11 +1003,11 @@ func (r *reader) pushToken(src []byte) {
 				newBackquote = CLPkg.GetFunc("backquote").Create
 			}
 			if len(r.stack) == 1 {
-				r.code = append(r.code, newBackquote(List{Symbol(token)}))
+				r.code = append(r.code, newBackquote(List{r.resolveToken(token)}))
 				r.stack[len(r.stack)-1] = nil
 				r.stack = r.stack[:0]
 			} else {
-				r.stack[len(r.stack)-1] = newBackquote(List{Symbol(token)})
+				r.stack[len(r.stack)-1] = newBackquote(List{r.resolveToken(token)})
 			}
 			return
 		case commaMarker:
@@ -1015,11 +1015,11 @@ func (r *reader) pushToken(src []byte) {
 				newComma = CLPkg.GetFunc("comma").Create
 			}
 			if len(r.stack) == 1 {
-				r.code = append(r.code, newComma(List{Symbol(token)}))
+				r.code = append(r.code, newComma(List{r.resolveToken(token)}))
 				r.stack[len(r.stack)-1] = nil
 				r.stack = r.stack[:0]
 			} else {
-				r.stack[len(r.stack)-1] = newComma(List{Symbol(token)})
+				r.stack[len(r.stack)-1] = newComma(List{r.resolveToken(token)})
 			}
 			return
 		case commaAtMarker:
@@ -1027,11 +1027,11 @@ func (r *reader) pushToken(src []byte) {
 				newCommaAt = CLPkg.GetFunc("comma-at").Create
 			}
 			if len(r.stack) == 1 {
-				r.code = append(r.code, newCommaAt(List{Symbol(token)}))
+				r.code = append(r.code, newCommaAt(List{r.resolveToken(token)}))
 				r.stack[len(r.stack)-1] = nil
 				r.stack = r.stack[:0]
 			} else {
-				r.stack[len(r.stack)-1] = newCommaAt(List{Symbol(token)})
+				r.stack[len(r.stack)-1] = newCommaAt(List{r.resolveToken(token)})
 			}
 			return
 		}
